@@ -10,7 +10,7 @@ var (
 	Elements = []string{"a", "area", "link", "base", "b", "i", "p", "div", "span", "img", "br", "hr", "input",
 		"blockquote", "q", "del", "ins", "audio", "video", "source", "track", "embed", "iframe", "script",
 		"style", "title", "textarea", "noscript", "object", "table", "td", "svg", "my-el", "my-x", "x-foo",
-		"select", "font", "xmp", "noembed", "noframes", "frameset", "nostyle", "details", "time"}
+		"select", "font", "xmp", "noembed", "noframes", "frameset", "nostyle", "details", "time", "x-caf\u00e9", "x-gr\u00f6\u00dfe", "x-\u03c0"}
 	VoidElements = []string{"area", "base", "br", "col", "embed", "hr", "img", "input", "link", "meta", "param", "source", "track", "wbr"}
 	AttrNames    = []string{"href", "src", "cite", "id", "class", "title", "rel", "target", "style", "crossorigin",
 		"sandbox", "alt", "width", "data-x", "data-foo-bar", "onclick", "name", "type", "lang", "dir", "open", "datetime"}
@@ -19,7 +19,7 @@ var (
 		`^[\p{L}\p{N}\s\-_',\[\]!\./\\\(\)]*$`, `^([\s\p{L}\p{N}_-]+)$`, `^(a|b|i)$`, `^.*$`, `javascript`,
 		`^(?:red|blue)$`, `^#[0-9a-f]{3}$`, `(?i)^(rtl|ltr)$`, `^[0-9]+[%]?$`, `^x`, `[a-zA-Z0-9\:\-_\.]+`,
 	}
-	ElementRegexPool = []string{`^my-`, `^x-[a-z]+$`, `^(b|i|script)$`, `-`, `^s`, `^.{1,2}$`, `(?i)^MY-X$`}
+	ElementRegexPool = []string{`^my-`, `^x-[a-z]+$`, `^(b|i|script)$`, `-`, `^s`, `^.{1,2}$`, `(?i)^MY-X$`, `^x-[\p{L}\p{N}-]+$`}
 	SchemeRegexPool  = []string{`^https?$`, `^(ftp|tel)$`, `^j`, `^x-`}
 	Schemes          = []string{"http", "https", "mailto", "ftp", "data", "javascript", "tel", "x-app", "HTTP"}
 	StyleProps       = []string{"color", "width", "background", "font-family", "text-align", "grid", "margin", "display", "x-prop", "COLOR"}
@@ -180,7 +180,7 @@ var (
 		"data:image/gif;base64,R0lG ODlh", "DATA:image/png;base64,AAAA", "http://a.b/?q=%26amp%3B", "mailto:a@b.c?subject=x&amp;body=y",
 		"javascript:1/alert(1)", "JavaScript:80/alert(1)", "data:443/text/html,x", "vbscript:8080", "localhost:8080/path", "x:1", "/%2Fexample.com/caf\u00e9", "/%2fevil.example/a|b", "%2F%2Fexample.com/x^y", "/%2F%2Fa.b/\"q\"",
 		"http://a.b/?a%26b=1", "https://a.b/p?x%3Cy=1&amp;a%22b=2", "http://a.b/?a&amp;b=1&amp;%3C=2", "http://a.b/?%27=1"}
-	RelPool    = []string{"", "nofollow", "noopener", "noreferrer", "nofollow noopener", "xnofollowx", "NOFOLLOW", "author", "a b c", "noopenerx", "no follow"}
+	RelPool    = []string{"external\u00a0nofollow", "noopener\vnofollow", "nofollow\u0085noreferrer", "noreferrer\u2003x", "", "nofollow", "noopener", "noreferrer", "nofollow noopener", "xnofollowx", "NOFOLLOW", "author", "a b c", "noopenerx", "no follow"}
 	TargetPool = []string{"_blank", "_BLANK", "_self", "", "x", " _blank"}
 	StylePool  = []string{"color: red", "color:red;", "COLOR: RED", "color: red; width: 1px", "width:1px;color:blue;x-prop:y", "color: \\72 ed",
 		"color: r\\65 d", "background: url(javascript:alert(1))", "background: url('http://a.b/c.png')", "color: red !important", "color: red ! IMPORTANT ;",
